@@ -169,7 +169,7 @@ def _real_grid(a):
         e, n = rs.uniform(region[0], region[1], 30), rs.uniform(region[2], region[3], 30)
         g = vd.Trend(2).fit((e, n), 1.0 + 2.0 * e - 3.0 * n + 0.5 * e * n + 0.25 * n * n)
     else:
-        g = vd.CheckerBoard(amplitude=7.0, region=tuple(region), w_east=(region[1] - region[0]) / 3.0)
+        g = vd.synthetic.CheckerBoard(amplitude=7.0, region=tuple(region), w_east=(region[1] - region[0]) / 3.0)
     f = proj_fn(proj)
     ds = g.grid(region=tuple(region), shape=shape, spacing=spacing, pixel_register=pixel, projection=f)
     name = list(ds.data_vars)[0]
